@@ -549,7 +549,7 @@ def c15(c):
 
 # ---------------------------------------------------------------------------------------------- C13 (symmetries)
 C13_THEOREMS = ["c13_tolerance_scalar_vector", "c13_radau_tolAdjust", "c13_reflect_rk4", "c13_reflect_rk23", "c13_reflect_dopri5",
-                "c13_reflect_dop853", "c13_reflect_guards", "c13_reflect_norm", "c13_scale_dopri5", "c13_scale_rk23", "c13_copies_norm",
+                "c13_reflect_dop853", "c13_reflect_guards", "c13_reflect_stiff", "c13_reflect_norm", "c13_scale_dopri5", "c13_scale_rk23", "c13_copies_norm",
                 "rkArg_reflect", "rkNew_reflect", "rkArg_scale", "rkNew_scale", "sum_copies", "foldl_add_eq_sum"]
 
 
